@@ -200,6 +200,15 @@ def run_impl(case):
         if k.get("lazy"):
             da = da.chunk({d: max(1, (n + 1) // 2) for d, n in zip(da.dims, da.shape)})
         try:
+            if len(k["vals"]) % 3 != 1 and bw is not None:
+                # nothing is carried from one call to the next: another call, with per-call arguments of its
+                # own, on the same Grid first
+                try:
+                    pad(da * 2 + 1, g, boundary_width=bw, boundary={a: "extend" for a in g.axes},
+                        fill_value={a: 100.0 for a in g.axes})
+                    pad(da * 2 + 1, g, boundary_width=bw, boundary="fill", fill_value=-77)
+                except Exception:
+                    pass
             r = pad(da, g, boundary_width=bw, boundary=k["boundary"], fill_value=k["fill"])
             out["pad"] = {"dims": [[d, int(n)] for d, n in zip(r.dims, r.shape)],
                           "vals": [str(Fraction(float(v))) for v in r.values.ravel()],
